@@ -2,10 +2,13 @@ package main
 
 import (
 	"fmt"
+	"go/ast"
+	"go/token"
 	"go/types"
 	"sort"
 	"strings"
 
+	"golang.org/x/tools/go/packages"
 	"golang.org/x/tools/go/ssa"
 )
 
@@ -118,6 +121,11 @@ func printWriteObligations(c *Ctx, rule string, names map[string]bool, allowSucc
 	for _, g := range groups {
 		o := Obligation{Key: fmt.Sprintf("shared write %s %s", g.kind, g.target), Pos: c.pos(g.sites[0].Pos), Verdict: OK}
 		ok, why := classifyPrintWrite(g, allowSucc)
+		if !ok && rule == "RACE-1" {
+			// not one of the known targets: acceptable for concurrent printing when the stores
+			// follow the numbering discipline anyway (decided per site, not by name)
+			ok, why = c.raceDisciplined(g, roots)
+		}
 		if ok {
 			o.Detail = fmt.Sprintf("%s; %d site(s), e.g. via %s", why, len(g.sites), g.sites[0].Path)
 		} else {
@@ -128,6 +136,150 @@ func printWriteObligations(c *Ctx, rule string, names map[string]bool, allowSucc
 	}
 	obs = append(obs, Obligation{Key: "analysed entry points", Verdict: OK, Detail: fmt.Sprintf("%d root methods, %d reachable functions of llir/llvm, llir/ll, mewmew/float", len(roots), nfn)})
 	return obs
+}
+
+// raceDisciplined: a shared write reachable from printing that is not one of the named targets
+// is still race-free when
+//
+//	(A) every store site writes a field of the same object, in the same basic block, as a store
+//	    to that object's ID field — it then happens exactly when the ID store happens, and the ID
+//	    store is held to lock + change guard by RACE-2 (wrappers are looked through there); or
+//	(B) the field is lock-confined: every function reachable from a print root that reads or
+//	    writes the field (or loads the whole struct by value) is reachable only through a function
+//	    that holds a mutex for its whole body (Lock at entry, deferred Unlock).
+//
+// (B) approximates "the owner's mutex" by "a mutex of the numbering routine that leads here";
+// which object a mutex protects is not decidable from the code.
+func (c *Ctx) raceDisciplined(g *writeGroup, roots []*ssa.Function) (bool, string) {
+	if g.kind != "field" {
+		return false, ""
+	}
+	idFields := c.idFields()
+	isIDFieldAddr := func(fa *ssa.FieldAddr) bool {
+		st, _ := fa.X.Type().Underlying().(*types.Pointer).Elem().Underlying().(*types.Struct)
+		return st != nil && idFields[st.Field(fa.Field)]
+	}
+	allA := true
+	for _, site := range g.sites {
+		st, ok := site.Instr.(*ssa.Store)
+		if !ok {
+			allA = false
+			break
+		}
+		fa, ok := st.Addr.(*ssa.FieldAddr)
+		if !ok {
+			allA = false
+			break
+		}
+		co := false
+		for _, in := range st.Block().Instrs {
+			if s2, ok := in.(*ssa.Store); ok && s2 != st {
+				if fa2, ok := s2.Addr.(*ssa.FieldAddr); ok && fa2.X == fa.X && isIDFieldAddr(fa2) {
+					co = true
+				}
+			}
+		}
+		if !co {
+			allA = false
+			break
+		}
+	}
+	if allA {
+		return true, fmt.Sprintf("stored together with the ID field of the same object at all %d site(s): happens exactly when the ID store happens, which RACE-2 holds to lock and change guard", len(g.sites))
+	}
+	// (B)
+	e := c.effects()
+	locked := map[*ssa.Function]bool{}
+	c.eachFunc(pkgIR, func(p *packages.Package, fd *ast.FuncDecl, fn *types.Func) {
+		if ok, _ := holdsReceiverMutex(p.TypesInfo, fd); ok {
+			if sf := c.ssaFunc(fn); sf != nil {
+				locked[sf] = true
+			}
+		}
+	})
+	if len(locked) == 0 {
+		return false, ""
+	}
+	// functions reachable from the print roots without passing through a locked function
+	cg := c.CallGraph()
+	unprot := map[*ssa.Function]bool{}
+	var queue []*ssa.Function
+	for _, r := range roots {
+		if !unprot[r] {
+			unprot[r] = true
+			queue = append(queue, r)
+		}
+	}
+	for len(queue) > 0 {
+		fn := queue[0]
+		queue = queue[1:]
+		if locked[fn] {
+			continue // what it calls runs under its mutex
+		}
+		push := func(f *ssa.Function) {
+			if f != nil && !unprot[f] && e.ours(f) {
+				unprot[f] = true
+				queue = append(queue, f)
+			}
+		}
+		if node := cg.Nodes[fn]; node != nil {
+			for _, ed := range node.Out {
+				push(ed.Callee.Func)
+			}
+		}
+		for _, anon := range fn.AnonFuncs {
+			push(anon)
+		}
+	}
+	owner := g.target[:strings.LastIndex(g.target, ".")]
+	field := g.target[strings.LastIndex(g.target, ".")+1:]
+	containsOwner := func(t types.Type) bool {
+		var walk func(t types.Type, depth int) bool
+		walk = func(t types.Type, depth int) bool {
+			if depth > 4 {
+				return false
+			}
+			if namedKey(t) == owner {
+				return true
+			}
+			if st, ok := t.Underlying().(*types.Struct); ok {
+				for i := 0; i < st.NumFields(); i++ {
+					if walk(st.Field(i).Type(), depth+1) {
+						return true
+					}
+				}
+			}
+			return false
+		}
+		return walk(t, 0)
+	}
+	for fn := range unprot {
+		if locked[fn] {
+			continue
+		}
+		for _, b := range fn.Blocks {
+			for _, in := range b.Instrs {
+				switch x := in.(type) {
+				case *ssa.FieldAddr:
+					pt := x.X.Type().Underlying().(*types.Pointer).Elem()
+					if st, ok := pt.Underlying().(*types.Struct); ok && namedKey(pt) == owner && st.Field(x.Field).Name() == field {
+						return false, ""
+					}
+				case *ssa.Field:
+					if st, ok := x.X.Type().Underlying().(*types.Struct); ok && namedKey(x.X.Type()) == owner && st.Field(x.Field).Name() == field {
+						return false, ""
+					}
+				case *ssa.UnOp:
+					if x.Op == token.MUL {
+						if _, isStruct := x.Type().Underlying().(*types.Struct); isStruct && containsOwner(x.Type()) {
+							return false, ""
+						}
+					}
+				}
+			}
+		}
+	}
+	return true, fmt.Sprintf("lock-confined: no function reachable from a print root outside the %d mutex-holding routines reads or writes this field or copies its struct", len(locked))
 }
 
 func ruleRACE1(c *Ctx) []Obligation {
